@@ -62,6 +62,8 @@ func usesBodies(T string) [][]*ir.S {
 		{leafD, ir.N("anydata", "gad")},
 		{ir.Cont("gn", ir.Uses("g2"), ir.Leaf("own", T))},
 		{ll3, ir.Leaf("after", T)},
+		// choices nested below shorthand members of other choices
+		{ir.N("choice", "och", ir.Cont("oc", ir.N("choice", "ich", ir.Leaf("il", T), ir.N("case", "ick", ir.Leaf("ikl", "string")))), ir.N("list", "ol", ir.N("choice", "lch", ir.Leaf("ll2", T))))},
 	}
 }
 
@@ -191,11 +193,13 @@ func augBody(i int) []*ir.S {
 		return []*ir.S{ir.N("case", "kz", ir.Leaf("kzl", "string"))}
 	case 6:
 		return []*ir.S{ir.Cont("e", ir.Cont("h", ir.Leaf("hh", "string")))}
+	case 7:
+		return []*ir.S{ir.Cont("e", ir.N("choice", "ech", ir.Leaf("el", "string"), ir.Cont("ec", ir.N("choice", "ech2", ir.Leaf("el2", "string")))))}
 	}
 	return nil
 }
 
-const AugBodies = 7
+const AugBodies = 8
 
 // AugWorld builds the modules for a list of augments in declaration order.
 func AugWorld(augs []AugSpec) *ir.World {
